@@ -81,12 +81,14 @@ theorem stored_is_returned (cfg : Cfg) (k : K) (ans : Con) (s : St K) (b : Bool)
       | true =>
         rw [maybeRun_present_cacheOnly cfg k ans old s hv (by rw [ho]; decide) hc] at h; cases h
       | false =>
-        by_cases hlt : ans.score < old.score
-        · rw [maybeRun_improved_better cfg k ans old s hv ho hc hlt] at h ⊢
+        cases hlt : better cfg ans old
+        case true =>
+          rw [maybeRun_improved_better cfg k ans old s hv ho hc hlt] at h ⊢
           injection h with h1 h2
           subst h1; subst h2
           exact ⟨by simp [DD.view_set], fun _ => rfl, (fun e => by cases e)⟩
-        · rw [maybeRun_improved_worse cfg k ans old s hv ho hc hlt] at h ⊢
+        case false =>
+          rw [maybeRun_improved_worse cfg k ans old s hv ho hc hlt] at h ⊢
           injection h with h1 h2
           subst h1; subst h2
           exact ⟨by rw [DD.view_load]; exact hv, (fun e => by cases e), fun _ => rfl⟩
@@ -128,10 +130,12 @@ theorem improved_monotone_step (cfg : Cfg) (k : K) (ans : Con) (s : St K)
         rw [maybeRun_present_cacheOnly cfg k' ans c s hv (by rw [hov]; decide) hc]
         exact ⟨c, by rw [DD.view_load]; exact hv, Int.le_refl _⟩
       | false =>
-        by_cases hlt : ans.score < c.score
-        · rw [maybeRun_improved_better cfg k' ans c s hv hov hc hlt]
-          exact ⟨ans, by simp [DD.view_set], Int.le_of_lt hlt⟩
-        · rw [maybeRun_improved_worse cfg k' ans c s hv hov hc hlt]
+        cases hlt : better cfg ans c
+        case true =>
+          rw [maybeRun_improved_better cfg k' ans c s hv hov hc hlt]
+          exact ⟨ans, by simp [DD.view_set], better_le cfg ans c hlt⟩
+        case false =>
+          rw [maybeRun_improved_worse cfg k' ans c s hv hov hc hlt]
           exact ⟨c, by rw [DD.view_load]; exact hv, Int.le_refl _⟩
   · exact ⟨c, by rw [view_maybeRun_other cfg k ans s k' hk]; exact hv, Int.le_refl _⟩
 
